@@ -125,6 +125,44 @@ def signature(d, taken):
     return "?(%s)" % sym.show(e)[:60]
 
 
+def err_sigs(b, bb):
+    """guard chain of an error exit; a block entered from several switch edges (`if a || b { return Err(..) }`) is guarded by the
+    disjunction of those edges, appended as the nearest guard in one canonical spelling"""
+    sigs = [signature(d, t) for (s, d, t) in guards.guards_of(b, bb)]
+    prs = mir.preds(b)
+    cur = bb
+    for _ in range(16):              # straight-line blocks between the join and the exit (building the error value)
+        pr = sorted(set(prs[cur]))
+        if len(pr) == 1 and b["blocks"][pr[0]]["term"]["k"] != "switch":
+            cur = pr[0]
+        else:
+            break
+    bb = cur
+    pr = sorted(set(prs[bb]))
+    if len(pr) < 2:
+        return sigs
+    edges = []
+    for p in pr:
+        tgt_ = bb
+        for _ in range(4):           # empty goto blocks on the edge
+            if b["blocks"][p]["term"]["k"] == "goto" and not [x for x in b["blocks"][p]["stmts"] if x["k"] == "assign"] and len(set(prs[p])) == 1:
+                tgt_, p = p, prs[p][0]
+            else:
+                break
+        t = b["blocks"][p]["term"]
+        if t["k"] != "switch":
+            return sigs
+        succs = [(("eq", v), tgt) for v, tgt in t["arms"]] + [(("ne", [v for v, _ in t["arms"]]), t["otherwise"])]
+        tk = [tk_ for tk_, tgt in succs if tgt == tgt_]
+        if len(tk) != 1:
+            return sigs
+        edges.append(signature(sym.expr(b, t["discr"]), tk[0]))
+    es = sorted(set(edges))
+    if len(es) == 2 and es[0].startswith("is_infinite(") and es[1].startswith("is_nan(") and es[0][len("is_infinite"):] == es[1][len("is_nan"):]:
+        return sigs + ["!is_finite" + es[1][len("is_nan"):]]          # f64: not finite <=> NaN or infinite
+    return sigs + ["(" + " || ".join(es) + ")"]
+
+
 def variant_of(body, ex):
     e = sym.expr_rv(body, ex["node"]["rv"])
     if e[0] == "agg" and e[3]:
@@ -695,8 +733,7 @@ def check(prog, run):
             if ex["kind"] != "err" or ex.get("variant") != "Err":
                 continue
             v = variant_of(b, ex)
-            gs = guards.guards_of(b, ex["bb"])
-            sigs = [signature(d, t) for (s, d, t) in gs]
+            sigs = err_sigs(b, ex["bb"])
             found.setdefault(v, []).append(sigs)
         # rejections delegated to a local helper through `?` (an explicit guard moved into its own function, a checked conversion)
         tries = flow.try_sites(b)
